@@ -248,7 +248,7 @@ func genM(r *vh.Rng, big int) string {
 	return fmt.Sprintf("M %c %s %c %s %s %s", pt, b2s(asc), ct, b2s(r.Bool()), valsStr(pt, vals), valsStr(ct, cvals))
 }
 
-func genK(r *vh.Rng, length int) string {
+func genK(r *vh.Rng, length int, textViews bool) string {
 	var ops []string
 	size := 0
 	for len(ops) < length {
@@ -306,6 +306,20 @@ func genK(r *vh.Rng, length int) string {
 		ops = append(ops, op)
 	}
 	ops = append(ops, "n", "t")
+	if textViews {
+		// the text views: ToString of the list, ToString of an entity (also the one past the end: nil)
+		if size <= 300 {
+			ops = append(ops, "ts")
+		}
+		k := r.PickInt([]int{0, size / 2, size - 1, size})
+		if k < 0 {
+			k = 0
+		}
+		ops = append(ops, "es:"+strconv.Itoa(k))
+		if size > 0 {
+			ops = append(ops, "rf", "ts")
+		}
+	}
 	return "K " + strings.Join(ops, ";")
 }
 
@@ -377,16 +391,24 @@ func generate(r *vh.Rng, thorough bool, rep *vh.Report) []*kase {
 		lines = append(lines, genM(r, 4700))
 	}
 	for i := 0; i < 800*mult; i++ {
-		lines = append(lines, genK(r, r.PickInt([]int{0, 2, 5, 20, 60})))
+		lines = append(lines, genK(r, r.PickInt([]int{0, 2, 5, 20, 60}), false))
 	}
 	for i := 0; i < 40*mult; i++ {
-		lines = append(lines, genK(r, 500+r.Intn(3000)))
+		lines = append(lines, genK(r, 500+r.Intn(3000), false))
 	}
 	for i := 0; i < 400*mult; i++ {
 		lines = append(lines, genP(r))
 	}
 	for i := 0; i < 1500*mult; i++ {
 		lines = append(lines, genS(r))
+	}
+	// round 7 (API coverage): float <-> text methods, text views of the linked list; appended so that the
+	// cases above stay what they were for a given seed
+	for i := 0; i < 1500*mult; i++ {
+		lines = append(lines, genG(r))
+	}
+	for i := 0; i < 300*mult; i++ {
+		lines = append(lines, genK(r, r.PickInt([]int{0, 1, 2, 5, 20, 60, 400}), true))
 	}
 	lines = append(lines, genQ(thorough)...)
 	cases := make([]*kase, len(lines))
